@@ -2,7 +2,7 @@
 //! way to observe a stack overflow), plus a stack-depth probe inside the library's callbacks.
 
 use crate::util::{emit_progress, Stats, Violation, J};
-use saphyr::{LoadableYamlNode, MarkedYaml, Yaml, YamlEmitter, YamlOwned};
+use saphyr::{LoadableYamlNode, MarkedYaml, Yaml, YamlEmitter, YamlLoader, YamlOwned};
 use saphyr_parser::{Event, Parser, Span, SpannedEventReceiver};
 use std::hash::{Hash, Hasher};
 use std::io::Write as _;
@@ -12,7 +12,7 @@ pub const SHAPES: [&str; 12] = ["seq-inline", "seq-lines", "map-lines", "explici
 /// `*-1MiB`: the same scenario on a thread with a 1 MiB stack (the budget of the stack probes): the
 /// pull and push interfaces keep their continuation on the heap, so their stack use must not depend
 /// on the depth at all, and a per-level frame anywhere in scanner or parser shows up ten times earlier.
-pub const APIS: [&str; 12] = ["iterate", "push", "load", "load-owned", "load-marked", "load+clone", "load+eq", "load+hash", "load+emit", "load-thread", "iterate-1MiB", "push-1MiB"];
+pub const APIS: [&str; 13] = ["iterate", "push", "load", "load-owned", "load-marked", "load+clone", "load+eq", "load+hash", "load+emit", "load-thread", "iterate-1MiB", "push-1MiB", "load-deferred+resolve"];
 
 pub fn make_input(shape: &str, depth: usize) -> String {
     make_input_leaf(shape, depth, None)
@@ -269,6 +269,15 @@ fn sweep(shape: &str, max: usize) {
                 report(depth, li, "clone-eq", &m, &mut panics);
             }
             if let Err(m) = catch(|| {
+                let mut loader: YamlLoader<Yaml> = YamlLoader::default();
+                loader.early_parse(false);
+                let ok = Parser::new_from_str(&input).load(&mut loader, true).is_ok();
+                let mut d = loader.into_documents();
+                ok && d.iter_mut().all(|x| x.parse_representation_recursive())
+            }) {
+                report(depth, li, "deferred-resolve", &m, &mut panics);
+            }
+            if let Err(m) = catch(|| {
                 let mut h = std::collections::hash_map::DefaultHasher::new();
                 docs.hash(&mut h);
                 h.finish()
@@ -386,6 +395,29 @@ pub fn child(shape: &str, depth: usize, api: &str) {
                     Ok(d) => {
                         crumb("phase drop");
                         drop(d);
+                        crumb("result ok");
+                    }
+                }
+            }
+            "load-deferred+resolve" => {
+                // loading with scalar resolution deferred, then resolving the whole tree (the other
+                // loading mode of C19): part of "loading" for a caller who uses that mode
+                crumb("phase load");
+                let mut loader: YamlLoader<Yaml> = YamlLoader::default();
+                loader.early_parse(false);
+                let r = Parser::new_from_str(&input).load(&mut loader, true);
+                match r {
+                    Err(_) => crumb("result error"),
+                    Ok(()) => {
+                        let mut docs = loader.into_documents();
+                        crumb("phase resolve");
+                        let mut all = true;
+                        for d in docs.iter_mut() {
+                            all &= d.parse_representation_recursive();
+                        }
+                        crumb(&format!("resolved {all}"));
+                        crumb("phase drop");
+                        drop(docs);
                         crumb("result ok");
                     }
                 }
